@@ -809,6 +809,8 @@ def rule_tailmeaning(ctx, rep):
 
 META["explanation"] += " " + 'Also (rounds 10-11): stop flag and queue heads are tested between the sleep announcement and the futex wait; writer / reader agreement on the meaning of queue->tail (published before the callbacks only if no barrier entry point returns from an unlocked read of it).'
 
+META["explanation"] += " " + 'Also (rounds 11-12, fourth reading): control skeleton (C13.ctrl: exit / sleep polarity, decoder loop, barrier skips, reclaimer loop, start / stop of the reclaimer), bare data only for the same function, plain list.h traversal macros.'
+
 RULES = [
     ("C13.tailmeaning", rule_tailmeaning),
     ("C13.ctrl", rule_ctrl),
